@@ -49,7 +49,7 @@ Print Assumptions C10_late_polls_refuted.
 
 (* non-vacuity *)
 Example C10_nonvacuous :
-  let s := mkshape true false [STable 3] [] 0 [mkos (mkfo 0 2 0 false) 4]
+  let s := mkshape true false false [STable 3] [] 0 [mkos (mkfo 0 2 0 false) 4]
                    [EFree; EParse (mkfo 1 3 1 false); ECached] in
   mono (flip_at (Some 7) 9) /\ repair_swallows s = false /\
   read (flip_at None 9) s = (Done, mkst 23 0) /\
